@@ -8,7 +8,16 @@ Softwares == {<<79, 112, 101, 110, 83, 83, 72, 95, 56, 46, 50, 112, 49>>, <<100,
 Comments == {<<99>>, <<116, 119, 111, 32, 32, 115, 112, 97, 99, 101, 115>>, <<116, 97, 98, 9, 120>>, <<116, 114, 97, 105, 108, 32>>, <<97, 32, 98, 32, 99>>, <<68, 101, 98, 105, 97, 110, 45, 49, 48, 43, 100, 101, 98, 49, 48, 117, 50, 32, 32, 98, 117, 105, 108, 100, 32, 52, 50>>, <<120, 61, 49, 59, 121>>}
 Banners == {[proto |-> p, software |-> s, has_comment |-> FALSE, comment |-> <<>>] : p \in Protos, s \in Softwares}
       \cup {[proto |-> p, software |-> s, has_comment |-> TRUE, comment |-> c] : p \in Protos, s \in Softwares, c \in Comments}
-Cases == {[abs |-> m, wire |-> Banner(m)] : m \in Banners}
+\* KEXINIT payloads with language tags (RFC 4253 7.1: name-lists of RFC 3066 / BCP 47 tags: subtags may contain digits),
+\* empty and non-empty lists next to each other
+Cookie16 == [i \in 1..16 |-> i]
+LangLists == {<<>>, <<<<101, 110, 45, 85, 83>>>>, <<<<101, 115, 45, 52, 49, 57>>, <<100, 101, 45, 67, 72, 45, 49, 57, 57, 54>>, <<101, 110>>>>, <<<<122, 104, 45, 72, 97, 110, 116, 45, 84, 87>>, <<115, 108, 45, 114, 111, 122, 97, 106, 45, 49, 57, 57, 52>>>>}
+Kex1 == <<<<99, 117, 114, 118, 101, 50, 53, 53, 49, 57, 45, 115, 104, 97, 50, 53, 54>>>>
+KexInits == {[cookie |-> Cookie16, kex |-> Kex1, host_key |-> <<<<115, 115, 104, 45, 101, 100, 50, 53, 53, 49, 57>>>>, enc_c2s |-> <<<<97, 101, 115, 49, 50, 56, 45, 99, 116, 114>>>>, enc_s2c |-> <<<<97, 101, 115, 49, 50, 56, 45, 99, 116, 114>>>>,
+              mac_c2s |-> <<<<104, 109, 97, 99, 45, 115, 104, 97, 50, 45, 50, 53, 54>>>>, mac_s2c |-> <<<<104, 109, 97, 99, 45, 115, 104, 97, 50, 45, 50, 53, 54>>>>, comp_c2s |-> <<<<110, 111, 110, 101>>>>, comp_s2c |-> <<<<110, 111, 110, 101>>>>,
+              lang_c2s |-> a, lang_s2c |-> b, first_kex_packet_follows |-> FALSE, reserved |-> <<>>] : a \in LangLists, b \in LangLists}
+Cases == {[abs |-> m, wire |-> Banner(m), kind |-> "banner"] : m \in Banners}
+    \cup {[abs |-> m, wire |-> KexInit(m), kind |-> "kexinit"] : m \in KexInits}
 ASSUME PrintT(<<"CASES", Cardinality(Cases)>>)
 ASSUME ndJsonSerialize(IOEnv.OUT_FILE, SetToSeq(Cases))
 =============================================================================
